@@ -120,12 +120,21 @@ def h_leaf_means(ctx, case):
     tabs = _write_stats(ctx, env, path, 's', leaves, row_of, genes, tree,
                        concrete_counts=True)
     for lf in leaves:
-        ctx.assume(tabs['n_cells'][row_of[lf]] >= 1)
+        n = tabs['n_cells'][row_of[lf]]
+        if case.get('empty_leaves'):
+            # a leaf without any cell in the reference has all-zero rows
+            for g in range(len(genes)):
+                ctx.assume(Implies(n == 0, tabs['sum'][row_of[lf], g] == 0))
+        else:
+            ctx.assume(n >= 1)
+    core.NONFINITE['raise'] = True
     try:
         m = MT.get_leaf_means(tree, path, for_marker_selection=False)
     except Exception as e:
         ctx.exception(e)
         return 'EXC ' + type(e).__name__
+    finally:
+        core.NONFINITE['raise'] = False
     ctx.reach('read')
     ctx.check(list(m.cell_identifiers) == sorted(leaves) and
               list(m.gene_identifiers) == genes and
@@ -135,9 +144,15 @@ def h_leaf_means(ctx, case):
     for i, lf in enumerate(sorted(leaves)):
         n = tabs['n_cells'][row_of[lf]]
         for g in range(len(genes)):
+            if ctx.mode != 'sym':
+                ctx.check(bool(np.isfinite(m.data[i, g])),
+                          'mean profile is finite (no NaN for a leaf '
+                          'without cells)')
             ctx.check(ctx.eq(m.data[i, g] * n, tabs['sum'][row_of[lf], g]),
                       'mean profile of a leaf == sum of its own row / its '
                       'cell count')
+            ctx.check(Implies(n == 0, ctx.eq(m.data[i, g], 0)),
+                      'a leaf without cells has a zero (not NaN) profile')
     return 'ok'
 
 
@@ -207,7 +222,49 @@ def h_centroids_end_to_end(ctx, case):
     return 'ok'
 
 
+def _rs_setup(case, mode):
+    from harness import refstats as RS
+    RS.setup(case, mode)
+
+
+def _c09_stage(ctx, case):
+    from harness import C09
+    return C09.h_stage(ctx, case)
+
+
+def _tally_setup(case, mode):
+    from harness import C02
+    C02.setup_tally(case, mode)
+
+
+def _tally(ctx, case):
+    from harness import C02
+    return C02.h_tally(ctx, case)
+
+
 HARNESSES = [
+    Harness('statistics_name_tables', _c09_stage, setup=_rs_setup,
+            cases=[{'files': 2, 'cells': 2, 'genes': 1, 'clusters': 2,
+                    'max_proc': 2},
+                   {'files': 3, 'cells': 1, 'genes': 1, 'clusters': 2,
+                    'max_proc': 1, 'via_tree': True}],
+            funcs=['precompute_from_anndata (see C09 statistics_stage)'],
+            stubs=['see C09'],
+            bounds='2-3 reference files with their own cell-name tables; a '
+                   'worker whose rows span a file boundary must route '
+                   'cells by the names of the file they come from',
+            expect_reach=['written'], split=32),
+    Harness('centroid_vote_counter', _tally, setup=_tally_setup,
+            cases=[{'markers': 1, 'cells': 1, 'refs': 1, 'iterations': n}
+                   for n in (255, 256)],
+            thorough_cases=[{'markers': 1, 'cells': 1, 'refs': 1,
+                             'iterations': n}
+                            for n in (255, 256, 65535, 65536)],
+            funcs=['election.tally_votes', 'utils.choose_int_dtype'],
+            stubs=['see C02 tally_votes'],
+            bounds='a cell that wins every one of 255 / 256 (65535 / '
+                   '65536) iterations: the counter must hold the count',
+            expect_reach=['returned']),
     Harness('centroid_kernel', h_centroid_kernel, setup=setup_kernel,
             cases=[{'leaves': 2, 'genes': 3}],
             thorough_cases=[{'leaves': 2, 'genes': 3},
@@ -230,7 +287,8 @@ HARNESSES = [
                     '(every row is constant there)',
             expect_reach=['voted'], query_timeout_ms=120000, selftest=10),
     Harness('leaf_means_by_name', h_leaf_means, setup=setup_means,
-            cases=[{'leaves': 2, 'genes': 2}, {'leaves': 3, 'genes': 1}],
+            cases=[{'leaves': 2, 'genes': 2}, {'leaves': 3, 'genes': 1},
+                   {'leaves': 2, 'genes': 1, 'empty_leaves': True}],
             thorough_cases=[{'leaves': 3, 'genes': 3}],
             funcs=['matching.get_leaf_means',
                    'score_utils.read_precomputed_stats',
